@@ -31,7 +31,7 @@ WARMUP_RUNS = 3
 
 WORKLOADS = [
     Workload(
-        name="driver", run=driver_sim.make_run("C10"), runs={"quick": 320, "thorough": 30_000}, chunk=10, run_timeout=300.0,
+        name="driver", run=driver_sim.make_run("C10"), runs={"quick": 320, "thorough": 12_000}, chunk=10, run_timeout=300.0,
         real=["pp.run_time_dependent_model", "pp.NewtonSolver.solve/iteration", "SolutionStrategy.before_nonlinear_loop/after_nonlinear_iteration/after_nonlinear_convergence/after_nonlinear_failure/update_solution/check_convergence",
               "pp.TimeManager", "EquationSystem value storage and assembly", "SinglePhaseFlow physics, SquareDomainOrthogonalFractures geometry, scipy sparse solve"],
         stub=["fault-injecting overrides of check_convergence and solve_linear_system (pass the real answer through when no fault is due)", "save_data_time_step is a no-op (export studied under C38)"],
